@@ -171,6 +171,20 @@ def skew(n: size, x: f32[n + 1, n + 1]):
         for j in seq(0, n):
             x[i, j] = x[i - 1, j + 1]
 """)
+S("dep/selfupdate", "dep", """
+@proc
+def selfupd(n: size, x: f32[n + 1], y: f32[n + 1], z: f32[n + 1], s: f32):
+    for i in seq(0, n):
+        x[0] = x[0] * 2.0
+        y[i] = x[0]
+    for i in seq(0, n):
+        s = s + 1.0
+        z[i] = s
+    for i in seq(0, n):
+        for j in seq(0, n):
+            z[0] = z[0] + y[j]
+            x[j] = z[0]
+""")
 S("dep/scalar_between", "dep", """
 @proc
 def scb(n: size, x: f32[n], y: f32[n]):
@@ -761,6 +775,7 @@ DEP_ALPHA = [
     ("xrm", "y[i] = x[i + 1]"),
     ("xrp", "z[i + 1] = x[i]"),
     ("xacc", "x[i] += a[i]"),
+    ("x0rw", "x[0] = x[0] * 2.0"),
     ("x0w", "x[0] = a[i]"),
     ("x0r", "z[i] = x[0]"),
     ("sacc", "s += a[i]"),
